@@ -195,6 +195,11 @@ def run(repo, chk):
                 writes.append(f"{m.name}.py:{n.lineno} {norm(n)}")
     chk.ob("R15.1", "package:selector-fields-immutable", not writes, "ptera/",
            f"constructor fields {sorted(all_fields)} are never written outside a constructor {writes}")
+    from .shared import shared_value_mutations
+    muts = shared_value_mutations(repo, set(FIELD_CLASSES))
+    chk.ob("R15.1", "selector:shared-values-never-changed-in-place", not muts, "ptera/selector.py",
+           "no method of an interned selector class changes in place a value it read from an attribute (fields and cached properties are shared by every selector built from the same parts): "
+           + ("results are always built in fresh containers" if not muts else str(muts)))
     for cls in FIELD_CLASSES:
         c = repo.cls(cls)
         clash = [n.name for n in c.body if isinstance(n, ast.FunctionDef) and any(is_name(d, "cached_property") for d in n.decorator_list)
@@ -360,6 +365,30 @@ def run(repo, chk):
                             bad_.append(norm(k_.value))
         chk.ob("R15.5", f"selector.{fname}:appends-in-source-order", not bad_ and n_ >= 1, fi_.where,
                f"new captures / children are appended after the existing ones ({n_} site(s)): `f(a) > x` and `f(a, !x)` list their captures in the same order" + (f" -- {bad_}" if bad_ else ""))
+    # an element derived from another element keeps every field it does not mean to change: it is cloned, or rebuilt from ALL fields
+    rebuilt_bad, rebuilt_n = [], 0
+    for cls_, fields_ in (("Element", ("name", "value", "category", "capture", "tags")), ("Call", ("element", "children", "captures", "immediate"))):
+        init_ = repo.func(f"selector.{cls_}.__init__")
+        fields_ = tuple(a.arg for a in init_.node.args.kwonlyargs) or fields_
+        for q, fi_ in sorted(repo.functions.items()):
+            if fi_.module != "selector":
+                continue
+            for c_ in walk_local(fi_.node):
+                if isinstance(c_, ast.Call) and is_name(c_.func, cls_):
+                    srcs = {}
+                    for k_ in c_.keywords:
+                        if k_.arg in fields_ and isinstance(k_.value, ast.Attribute) and isinstance(k_.value.value, ast.Name) and k_.value.attr == k_.arg:
+                            srcs.setdefault(k_.value.value.id, set()).add(k_.arg)
+                    for v_, copied in srcs.items():
+                        if len(copied) >= 2:         # two or more fields taken over from the same object: a rebuild of that object
+                            rebuilt_n += 1
+                            given = {k_.arg for k_ in c_.keywords}
+                            missing = [f_ for f_ in fields_ if f_ not in given]
+                            if missing:
+                                rebuilt_bad.append(f"{q}: {cls_}(...) rebuilt from `{v_}` without {missing} (they silently fall back to the defaults; use {v_}.clone(...))")
+    chk.ob("R15.5", "selector:elements-derived-by-clone-keep-their-fields", not rebuilt_bad, "ptera/selector.py",
+           f"a selector object derived from another one keeps the fields it does not change (focus tags included): derived by clone(), or rebuilt from all constructor fields ({rebuilt_n} rebuild site(s))"
+           + (f" -- {rebuilt_bad}" if rebuilt_bad else ""))
     # the context (root / incall) of an operand is the context of the whole expression, except inside call parentheses
     ctx_bad, ctx_n = [], 0
     for q, fi_ in sorted(repo.functions.items()):
